@@ -1120,8 +1120,6 @@ def check_validity(case: dict, root: str, ev: T.Optional[Evidence] = None, inpro
 def known_validity_class(case: dict) -> T.Optional[str]:
     """classes excluded from the random campaign because a dedicated probe reports them (genuine findings)"""
     where, name, typ, _ = VTARGETS[case['target']]
-    if not name.startswith('my') and case['raw'] == '':
-        return 'built-in option set to the empty string (finding value/builtin-empty-string-becomes-dot)'
     if case['channel'] == 'mfile' and ('\\' in case['raw'] or "'" in case['raw']):
         return 'machine file string containing a backslash or quote (escaping rules not documented)'
     return None
@@ -1416,7 +1414,10 @@ def probe_case(name: str) -> T.Tuple[str, dict, dict, str]:
     raise HarnessError(f'unknown probe {name}')
 
 
-PROBES = ['sp-buildtype-overrides-explicit', 'buildtype-listed-after-explicit', 'builtin-empty-string-becomes-dot']
+# 'buildtype-listed-after-explicit' (default_options: ['debug=true', 'buildtype=release'] gives debug=false) is NOT probed: the
+# documentation says nothing about the order inside one source, last-wins is a defensible reading, so demanding the opposite
+# would over-reach; the campaigns always list buildtype first inside a source.
+PROBES = ['sp-buildtype-overrides-explicit', 'builtin-empty-string-becomes-dot']
 
 
 def run_probe(name: str, root: str) -> T.Optional[Failure]:
